@@ -58,8 +58,20 @@ func New(options ...VMOption) *VM {
 func (v *VM) btErr(r any) error {
 	bt := v.backtrace
 	var lines []string
-	i := v.frame.Codes[v.frame.N]
-	lines = append(lines, fmt.Sprintf("%v: %v: %v", i.Pos.String(v.globals), i.Code, r))
+	if codes := v.frame.Codes; len(codes) > 0 {
+		// a function body that ran off its end leaves N == len(codes): report its last instruction
+		n := v.frame.N
+		if n < 0 {
+			n = 0
+		}
+		if n >= len(codes) {
+			n = len(codes) - 1
+		}
+		i := codes[n]
+		lines = append(lines, fmt.Sprintf("%v: %v: %v", i.Pos.String(v.globals), i.Code, r))
+	} else {
+		lines = append(lines, fmt.Sprint(r))
+	}
 	for n := len(bt) - 1; n >= 0; n-- {
 		pos := bt[n]
 		if pos == 0 {
